@@ -44,12 +44,12 @@ def main():
         rc, out = run_demo(seed, wt)
         res["demo_with"] = rc
         res["demo_tail"] = out[-600:]
-        rc, out = sh(["/venv/bin/python", "-c", "import sys; sys.path.insert(0,'pym'); import bob.builder, bob.input, bob.cmds.build.build, bob.cmds.archive, bob.cmds.jenkins.jenkins, bob.share, bob.archive"], cwd=wt)
+        rc, out = sh(["/venv/bin/python", "-c", "import sys; sys.path.insert(0,'pym'); import bob; assert bob.__file__.startswith(sys.argv[1]), bob.__file__; import bob.builder, bob.input, bob.cmds.build.build, bob.cmds.archive, bob.cmds.jenkins.jenkins, bob.share, bob.archive", wt], cwd=wt)
         res["imports"] = rc == 0
         if not no_tests:
             xml = os.path.join(wt, "junit.xml")
             sh("/venv/bin/python -m pytest -q -p no:cacheprovider --timeout=900 --continue-on-collection-errors --junitxml=%s -n 8 2>/dev/null || /venv/bin/python -m pytest -q -p no:cacheprovider --timeout=900 --continue-on-collection-errors --junitxml=%s" % (xml, xml),
-               cwd=wt, timeout=3600)
+               cwd=wt, timeout=7200, env=dict(os.environ, PYTHONPATH=os.path.join(wt, "pym")))
             passed = set()
             for tc in ET.parse(xml).getroot().iter("testcase"):
                 if not list(tc):
